@@ -1,6 +1,8 @@
 package main
 
 import (
+	"strings"
+	"os"
 	"fmt"
 	"go/token"
 	"go/types"
@@ -110,6 +112,7 @@ func (e *Engine) eval(fr *frame, v ssa.Value) Value {
 		case SliceV:
 			e.checkIdx(idx, b.len, "index", fr, x.Pos())
 			if b.sa != nil {
+				idx = e.uniqueIdx(idx)
 				return Ptr{loc: &ElemLoc{a: b.sa, idx: Bin("bvadd", b.off, idx)}}
 			}
 			k := e.concretize(idx, b.len)
@@ -843,6 +846,27 @@ func (e *Engine) valEq(a, b Value) *Term {
 	}
 	panic(fmt.Sprintf("valEq %T", a))
 }
+
+// uniqueIdx: a symbolic byte-array index of the form base (+ const) whose base the path condition forces
+// to one value becomes a constant (a copy loop at a symbolic offset would otherwise leave a chain of
+// stores at symbolic indexes, which turns every later read of the array into a deep ite chain).
+func (e *Engine) uniqueIdx(idx *Term) *Term {
+	if idx.Op == "c" || noUniqIdx || e.cfg.Params["realwal"] == 1 || strings.HasPrefix(e.cur, "wal/") {
+		// (the write-ahead-log harnesses index with positions modulo the log size; nothing is gained
+		// there, and the extra recorded values are not needed)
+		return idx
+	}
+	base, k := idx, uint64(0)
+	if idx.Op == "bvadd" && idx.Args[1].Op == "c" {
+		base, k = idx.Args[0], idx.Args[1].C
+	}
+	if u := e.uniqueValue(base); u.Op == "c" {
+		return Const(idx.W(), u.C+k)
+	}
+	return idx
+}
+
+var noUniqIdx = os.Getenv("GOSYM_NOUNIQIDX") != ""
 
 // uniqueValue returns a constant if the path condition forces t to one value.
 func (e *Engine) uniqueValue(t *Term) *Term {
